@@ -120,6 +120,10 @@ def _mk(d):
         return np.int64(d[1])
     if t == "list":
         return [_mk(x) for x in d[1]]
+    if t == "ufuncobj":
+        return getattr(np, d[1])
+    if t == "expand":          # x[(Ellipsis,) + (None,) * n]: the broadcasting spelling of an outer operand
+        return _mk(d[1])[(Ellipsis,) + (None,) * d[2]]
     if t == "outsp":
         _t, fmt, ca, shape, dtype = d
         z = sparse.zeros(tuple(shape), dtype=dtype)
@@ -279,6 +283,51 @@ def impl_sweep(case):
     return {"kind": "densified" if dens else kind, "canon": can[:300]}
 
 
+def _dense(a):
+    st = _setup()
+    np, sparse = st["np"], st["sparse"]
+    if isinstance(a, sparse.SparseArray):
+        return a.todense()
+    if hasattr(a, "toarray"):
+        return a.toarray()
+    return a
+
+
+def impl_order(case):
+    """case: {'calls': [...], 'ref': (ufunc name, method, [dense-able arg descriptors], {kw})}
+    -> {'out': [(kind, canon)], 'np_ok': [bool]}: every call's densified result against NumPy's"""
+    st = _setup()
+    np, sparse = st["np"], st["sparse"]
+    u, m, rad, rkd = case["ref"]
+    try:
+        f = getattr(np, u) if m == "__call__" else getattr(getattr(np, u), m)
+        with np.errstate(all="ignore"):
+            want = f(*[_dense(_mk(a)) for a in rad], **{k: _mk(v) for k, v in rkd.items()})
+        want = np.asarray(want)
+    except Exception:  # noqa: BLE001
+        want = None
+    out, ok = [], []
+    for sp, ad, kd in case["calls"]:
+        args = [_mk(a) for a in ad]
+        kwargs = {k: _mk(v) for k, v in kd.items()}
+        box = {}
+
+        def thunk(sp=sp, args=args, kwargs=kwargs, box=box):
+            box["r"] = _call(tuple(sp), args, kwargs)()
+            return box["r"]
+        kind, can, _d = _run(thunk)
+        out.append((kind, can))
+        good = True
+        if "r" in box and want is not None and kind in ("sparse", "ndarray", "scalar"):
+            try:
+                got = np.asarray(_dense(box["r"]))
+                good = bool(got.shape == want.shape and got.dtype == want.dtype and np.array_equal(got, want, equal_nan=True))
+            except Exception:  # noqa: BLE001
+                good = True
+        ok.append(good)
+    return {"out": out, "np_ok": ok}
+
+
 def impl_any(case):
     """one worker entry point for all parts, so that every worker process pays import + JIT once"""
     part, payload = case
@@ -286,6 +335,8 @@ def impl_any(case):
         return {"bundle": [impl_any(c) for c in payload]}
     if part == "sweep":
         return impl_sweep(payload)
+    if part == "order":
+        return impl_order(payload)
     return impl_agree(payload)
 
 
@@ -592,6 +643,10 @@ def _show_call(sp, ad, kd):
             return "[" + ", ".join(sh(x) for x in d[1]) + "]"
         if d[0] == "outsp":
             return "OUT"
+        if d[0] == "ufuncobj":
+            return "np." + d[1]
+        if d[0] == "expand":
+            return "(%s)[(Ellipsis,) + (None,) * %d]" % (sh(d[1]), d[2])
         return repr(d[1])
     a = [sh(x) for x in ad]
     kw = ["%s=%s" % (k, sh(v)) for k, v in kd.items()]
@@ -689,6 +744,89 @@ def _shape_cases(T, wrappers, rng, tier):
     return scases, smeta
 
 
+NONCOMMUTATIVE = ("subtract", "power", "floor_divide", "divide", "remainder", "greater", "greater_equal", "less",
+                  "less_equal", "left_shift", "right_shift", "arctan2", "copysign", "fmod", "ldexp", "logaddexp2")
+
+
+def _ndim(d):
+    x = d[3] if d[0] == "sp" else d[1] if d[0] in ("nd", "scipy") else None
+    n = 0
+    while isinstance(x, list):
+        n += 1
+        x = x[0] if x else None
+    return n
+
+
+def _order_cases(T, rng, tier):
+    """part 5: ufunc.outer against the broadcasting spellings (call, operator, namespace) and NumPy; reflected
+    calls and ufunc.reduce of non-commutative ufuncs against NumPy"""
+    nptab = dict(T["numpy"])
+    nsd = dict(T["namespace"])
+    ns_of = {e[1]: n for n, e in T["namespace"] if e[0] == "ufunc"}
+    stem_of = {u: st for st, u in _operator_spec().items()}
+    binary = sorted({k[1] for n, k in T["numpy"] if k[0] == "ufunc" and not k[2] and k[3] == 2 and k[4] == 1
+                     and "." not in n and n == k[1]})
+    ocases, ometa = [], []
+    for u in binary:
+        nonc = u in NONCOMMUTATIVE
+        if tier == "quick" and not nonc and u not in ("add", "multiply", "maximum"):
+            continue
+        small = u in ("power", "left_shift", "right_shift", "ldexp")
+        lo, hi = (0, 3) if small else (-3, 4)
+        dt = "float64" if u in ("arctan2", "copysign", "logaddexp", "logaddexp2", "hypot", "nextafter", "fmax", "fmin",
+                                "float_power", "heaviside") else "int64"
+        for fmt in _formats(tier):
+            cls = CLS_OF[fmt[0]]
+
+            def spell(args):
+                calls = [(("ufunc", u, "__call__"), args, {})]
+                st = stem_of.get(u)
+                if st is not None and any(a[0] in ("sp", "expand") and (a[0] == "sp" or a[1][0] == "sp") for a in args):
+                    a_sp = args[0][0] == "sp" or (args[0][0] == "expand" and args[0][1][0] == "sp")
+                    if a_sp or st not in ("lt", "le", "gt", "ge", "eq", "ne"):
+                        calls.append((("operator", st, "L" if a_sp else "R"), args, {}))
+                if u in ns_of:
+                    calls.append((("namespace", ns_of[u]), args, {}))
+                return calls
+            x1 = _sp(rng, fmt, (3,), 0, dt, lo, hi)
+            y1 = _sp(rng, fmt, (2,), 0, dt, lo, hi)
+            x2 = _sp(rng, fmt, (2, 3), 0, dt, lo, hi)
+            nd1 = ("nd", _rand_dense(rng, (2,), 0, lo, hi), dt)
+            pairs = [(x1, y1, "sparse_sparse"), (x2, y1, "sparse2d_sparse"), (x1, nd1, "sparse_ndarray"),
+                     (nd1, x1, "ndarray_sparse")]
+            if tier != "quick":
+                pairs.append((x1, _sp(rng, fmt, (3,), 2, dt, lo, hi), "sparse_sparse_fill2"))
+            for a, b, tag in pairs:
+                if tier == "quick" and tag == "sparse2d_sparse" and not nonc:
+                    continue
+                ae = ("expand", a, _ndim(b))
+                calls = [(("ufunc", u, "outer"), [a, b], {})] + spell([ae, b])
+                ocases.append({"calls": calls, "ref": (u, "outer", [a, b], {})})
+                ometa.append((cls, u, "outer", tag, fmt))
+            if nonc:
+                # reflected / mixed plain calls against NumPy
+                for a, b, tag in [(("py", 2), x2, "scalar_sparse"), (x2, ("py", 2), "sparse_scalar"),
+                                  (("nd", _rand_dense(rng, (2, 3), 0, lo, hi), dt), x2, "ndarray_sparse"),
+                                  (x2, ("nd", _rand_dense(rng, (2, 3), 0, lo, hi), dt), "sparse_ndarray"),
+                                  (x2, _sp(rng, fmt, (2, 3), 0, dt, lo, hi), "sparse_sparse")]:
+                    ocases.append({"calls": spell([a, b]), "ref": (u, "__call__", [a, b], {})})
+                    ometa.append((cls, u, "__call__", tag, fmt))
+                # ufunc.reduce against the method spelling x.reduce(np.u, axis=...) and NumPy
+                for ax in (0, 1):
+                    calls = [(("ufunc", u, "reduce"), [x2], {"axis": ("py", ax)}),
+                             (("method", "reduce"), [x2, ("ufuncobj", u)], {"axis": ("py", ax)})]
+                    ocases.append({"calls": calls, "ref": (u, "reduce", [x2], {"axis": ("py", ax)})})
+                    ometa.append((cls, u, "reduce", "axis%d" % ax, fmt))
+    return ocases, ometa
+
+
+def _operator_spec():
+    return {"lt": "less", "le": "less_equal", "eq": "equal", "ne": "not_equal", "gt": "greater", "ge": "greater_equal",
+            "add": "add", "sub": "subtract", "mul": "multiply", "truediv": "divide", "floordiv": "floor_divide",
+            "mod": "remainder", "pow": "power", "lshift": "left_shift", "rshift": "right_shift",
+            "and": "bitwise_and", "xor": "bitwise_xor", "or": "bitwise_or"}
+
+
 def _sweep_cases(T, rng, tier):
     """part 4: every public NumPy function/ufunc on 1..3 sparse arguments"""
     nptab = T["numpy"]
@@ -759,16 +897,19 @@ def campaign(build, tier, seed, report, budget=1):
     timing = {}
     scases, smeta = _shape_cases(T, wrappers, rng, tier)
     wcases, wmeta = _sweep_cases(T, rng, tier)
+    ocases, ometa = _order_cases(T, rng, tier)
     t0 = time.time()
-    keys = [("a", m[0]) for m in meta] + [("s", m[1]) for m in smeta] + [("w", i // 40) for i in range(len(wcases))]
+    keys = [("a", m[0]) for m in meta] + [("s", m[1]) for m in smeta] + [("w", i // 40) for i in range(len(wcases))] + \
+        [("o", m[1], m[4][0]) for m in ometa]
     allres, nb, nredo = run_bundled([("agree", c) for c in cases] + [("agree", c) for c in scases] +
-                                    [("sweep", c) for c in wcases], keys, WORKERS, 90.0)
+                                    [("sweep", c) for c in wcases] + [("order", c) for c in ocases], keys, WORKERS, 90.0)
     timing["impl"] = round(time.time() - t0, 1)
     timing["bundles"] = nb
     timing["cases_rerun_individually"] = nredo
     res = allres[:len(cases)]
     sres = allres[len(cases):len(cases) + len(scases)]
-    wres = allres[len(cases) + len(scases):]
+    wres = allres[len(cases) + len(scases):len(cases) + len(scases) + len(wcases)]
+    ores = allres[len(cases) + len(scases) + len(wcases):]
     lits = []
     for (label, fmt, tag, unary, calls), r in zip(meta, res, strict=True):
         outs = r.get("out") if isinstance(r, dict) else None
@@ -851,15 +992,45 @@ def campaign(build, tier, seed, report, budget=1):
     if hangs:
         notes.append("sweep calls killed by the watchdog: " + ", ".join(f"{a}/{b}" for a, b in hangs))
 
-    cov["evaluations"] = n_agree + len(scases) + len(wcases)
+    # ---------------------------------------------------------------- part 5: operand order (outer / reflected / reduce)
+    olits = []
+    for (cls, u, m, tag, fmt), r, c in zip(ometa, ores, ocases, strict=True):
+        outs = r.get("out") if isinstance(r, dict) else None
+        if outs is None:
+            outs = [("hang" if r.get("hang") else "otherexc", "harness:" + json.dumps(r)[:80])] * len(c["calls"])
+            r["out"], r["np_ok"] = outs, [True] * len(outs)
+        ids = {}
+        obs = []
+        for (kind, can), good in zip(outs, r["np_ok"], strict=True):
+            i = ids.setdefault(can, len(ids))
+            obs.append(vpair(vZ(i), vZ(K.get(kind, 19)), vbool(good)))
+        olits.append(vpair(q(cls), q(u), q(m), "[" + "; ".join(obs) + "]"))
+        t = f"order/{m}/{'agree' if len(ids) == 1 else 'differ'}/{'np_ok' if all(r['np_ok']) else 'np_differs'}"
+        tags[t] = tags.get(t, 0) + 1
+    obad = build.judge("c17_order", IMPORTS, "order_case", "judge_order", olits)
+    OC = {1: ("ufunc_{m}_disagrees_with_broadcasting_spelling", "value"), 2: ("ufunc_{m}_differs_from_numpy", "value"),
+          7: (None, "representation")}
+    for i, code in obad:
+        cls, u, m, tag, fmt = ometa[i]
+        clause, kind = OC[code]
+        viol.append({"property": "C17", "op": u + "." + m, "kind": kind,
+                     "clause": None if clause is None else clause.format(m=m.strip("_")), "format": cls,
+                     "judge_code": code, "variant": tag,
+                     "case": {"format": fmt, "calls": [_show_call(*c) for c in ocases[i]["calls"]]},
+                     "impl": [(o[0], o[1][:160], g) for o, g in zip(ores[i]["out"], ores[i]["np_ok"], strict=True)],
+                     "replay_py": _replay(ocases[i]["calls"])})
+
+    cov["evaluations"] = n_agree + len(scases) + len(wcases) + len(ocases)
     cov["distinct_nontrivial"] = distinct_agree + len({(m[0], m[1], m[2], tuple(m[3]), m[5]) for m in smeta}) + \
-        len({(m[0], m[1], m[2]) for m in wmeta})
+        len({(m[0], m[1], m[2]) for m in wmeta}) + len({(m[0], m[1], m[2], m[3]) for m in ometa})
     cov["rule"] = ("part 1: every generated operation class (>1 spelling) x formats x argument templates incl. operand "
                    "positions, all applicable spellings per case; part 2/3: every method-targeting wrapper x keyword "
                    "subsets and NumPy call shapes; part 4: every numpy.__all__ (+linalg, fft in the thorough tier) "
-                   "function/ufunc x 1..3 sparse arguments x formats; distinct = distinct (operation, format, template) "
+                   "function/ufunc x 1..3 sparse arguments x formats; part 5: binary ufuncs (every non-commutative one) x formats x "
+                   "operand positions: ufunc.outer vs the broadcasting call/operator/namespace spellings, reflected calls, "
+                   "ufunc.reduce vs x.reduce, each against NumPy on the densified operands; distinct = distinct (operation, format, template) "
                    "/ (class, wrapper, shape) / (class, name, arity)")
-    cov["parts"] = {"agree_cases": n_agree, "op_classes": len(T["op_classes"]), "shape_cases": len(scases),
+    cov["parts"] = {"order_cases": len(ocases), "agree_cases": n_agree, "op_classes": len(T["op_classes"]), "shape_cases": len(scases),
                     "sweep_cases": len(wcases), "spelling_calls": sum(len(c["calls"]) for c in cases)}
     cov["timing_s"] = timing
     cov["differential_only"] = ["two-algorithm operations (COO/GCXS isnan, isinf, mT vs matrix_transpose): agreement "
